@@ -82,9 +82,24 @@ func weights(over map[string]int) map[string]int {
 	return m
 }
 
+// layout64 registers EXACTLY 64 component types (the whole 64-bit mask, a full first word of the 256-bit mask):
+// the boundary at which the two mask widths must still agree.
+func layout64() []int {
+	l := make([]int, 0, 64)
+	place := map[int]int{0: CodeA, 1: CodeR1, 31: CodeB, 32: CodeC, 33: CodeR2, 61: CodeN1, 62: CodeD, 63: CodeZ0}
+	for i := 0; i < 64; i++ {
+		if c, ok := place[i]; ok {
+			l = append(l, c)
+		} else {
+			l = append(l, CodeDyn+i)
+		}
+	}
+	return l
+}
+
 // Streams are the generator families referred to by the per-property checks.
 var Streams = map[string]Stream{
-	"store": {Name: "store", Codes: [][]int{layoutSmall, layoutPlain, layoutWide()}, Caps: [][2]int{{1, 1}, {2, 1}, {3, 2}, {8, 4}}, Ops: 60,
+	"store": {Name: "store", Codes: [][]int{layoutSmall, layoutPlain, layoutWide(), layout64()}, Caps: [][2]int{{1, 1}, {2, 1}, {3, 2}, {8, 4}}, Ops: 60,
 		Weights: weights(map[string]int{"obsnew": 0, "obsreg": 0, "obsunreg": 0, "emit": 0}), Invalid: 4, MaxEnt: 24, WithDump: true, Scenarios: 2},
 	"relations": {Name: "relations", Codes: [][]int{layoutRel, layoutSmall}, Caps: [][2]int{{1, 1}, {2, 2}, {4, 1}}, Ops: 70,
 		Weights: weights(map[string]int{"unewrel": 16, "addrel": 10, "setrel": 14, "removeentity": 12, "removeentities": 6, "setrelbatch": 6, "shrink": 5,
@@ -99,7 +114,7 @@ var Streams = map[string]Stream{
 		Weights: weights(map[string]int{"lockburst": 1, "queryopen": 16, "querynext": 14, "queryclose": 12, "querycount": 3, "filternew": 6, "write": 6, "mapset": 4, "emit": 3}), Invalid: 2, MaxEnt: 12, WithDump: true},
 	"observers": {Name: "observers", Codes: [][]int{layoutSmall, layoutRel}, Caps: [][2]int{{1, 1}, {4, 2}}, Ops: 70,
 		Weights: weights(map[string]int{"obsnew": 10, "obsreg": 10, "obsunreg": 5, "emit": 6, "mapset": 6, "exbatch": 6, "setrelbatch": 4, "newbatch": 4, "removeentities": 4}), Invalid: 2, MaxEnt: 16, WithDump: true, Scenarios: 6},
-	"misuse": {Name: "misuse", Codes: [][]int{layoutSmall, layoutRel}, Caps: [][2]int{{1, 1}, {2, 2}}, Ops: 60,
+	"misuse": {Name: "misuse", Codes: [][]int{layoutSmall, layoutRel, layout64()}, Caps: [][2]int{{1, 1}, {2, 2}}, Ops: 60,
 		Weights: weights(map[string]int{"probe": 12, "queryopen": 4, "queryclose": 4}), Invalid: 35, MaxEnt: 14, WithDump: true, Scenarios: 4},
 	"reset": {Name: "reset", Codes: [][]int{layoutSmall}, Caps: [][2]int{{1, 1}, {3, 2}}, Ops: 80,
 		Weights: weights(map[string]int{"reset": 5, "obsnew": 4, "obsreg": 5, "register": 5, "filternew": 6}), Invalid: 2, MaxEnt: 16, WithDump: true, Scenarios: 3},
@@ -107,7 +122,7 @@ var Streams = map[string]Stream{
 		Weights: weights(map[string]int{"shrink": 12, "newbatch": 6, "newentities": 6, "removeentities": 6, "removeentity": 12, "register": 5, "stats": 4}), Invalid: 2, MaxEnt: 40, WithDump: true, Scenarios: 5},
 	"stats": {Name: "stats", Codes: [][]int{layoutSmall, layoutRel}, Caps: [][2]int{{1, 1}, {4, 2}}, Ops: 60,
 		Weights: weights(map[string]int{"stats": 14, "shrink": 5, "reset": 2}), Invalid: 2, MaxEnt: 24, WithDump: true, Scenarios: 3},
-	"query": {Name: "query", Codes: [][]int{layoutSmall, layoutRel, layoutWide()}, Caps: [][2]int{{1, 1}, {4, 2}}, Ops: 60,
+	"query": {Name: "query", Codes: [][]int{layoutSmall, layoutRel, layoutWide(), layout64()}, Caps: [][2]int{{1, 1}, {4, 2}}, Ops: 60,
 		Weights: weights(map[string]int{"filternew": 12, "queryall": 20, "queryopen": 4, "querynext": 8, "querycount": 5, "queryat": 6, "queryentity": 3, "register": 4}), Invalid: 3, MaxEnt: 24, WithDump: true, Scenarios: 3},
 }
 
